@@ -315,6 +315,13 @@ func fileFlushAux(L *LState, file *lFile) int {
 			return 2
 		}
 	}
+	// flush is a positioning point between a read and a following write (ISO C):
+	// drop the read-ahead so that the descriptor's offset is the logical position again
+	if err := file.AbandonReadBuffer(); err != nil {
+		L.Push(LNil)
+		L.Push(LString(err.Error()))
+		return 2
+	}
 	L.Push(LTrue)
 	return 1
 }
